@@ -36,7 +36,9 @@ t('D07i url-list int', lambda: mk({'url-list':5}, length=5).magnet())
 t('D07i url-list bad', lambda: mk({'url-list':['nope']}, length=5).magnet())
 t('D07i announce-list dict', lambda: mk({'announce-list':{0:['http://a']}}, length=5).magnet())
 t('D07i announce-list tier dict', lambda: mk({'announce-list':[{0:'http://a'}]}, length=5).magnet())
-# D07j
-t('D07j huge int where str expected', lambda: mk({'announce': 10**4300}, length=5).validate())
-t('D07j huge piece length not /16KiB', lambda: mk(**{'length':5, 'piece length': 10**4300}).is_ready)
+# D07j (fixed in /repo 3420ff7: safe_repr; all three now raise MetainfoError / return False, see also c07_hugeint_probe.py)
+t('D07j(fixed) huge int where str expected', lambda: mk({'announce': 10**4300}, length=5).validate())
+t('D07j(fixed) huge piece length not /16KiB', lambda: mk(**{'length':5, 'piece length': 10**4300+1}).is_ready)
 t('     10**4299 ', lambda: mk({'announce': 10**4299}, length=5).validate())
+t('D07j(fixed) Expected N pieces', lambda: mk(length=10**4305).validate())
+t('D07j(fixed) nested in list', lambda: mk({'announce': [1, [10**4300]]}, length=5).validate())
